@@ -415,11 +415,13 @@ def restore_refactored(tree: ast.Module, relpath: str) -> List[str]:
                 helpers[name] = d
                 if depth < 2:
                     todo += [(n, depth + 1) for n in _called_names(d)]
+        if sum(1 for x in ast.walk(node) if isinstance(x, ast.stmt)) > 250:
+            continue  # far beyond any function of the package: not worth normalising
         try:
             cur = digest(nf(node, signatures(), helpers=helpers, in_class=cls is not None))
             if cur != _ref_nf(key, r):
                 continue
-        except RecursionError:
+        except Exception:  # the normal form is an optimisation of recognisability: on any trouble the function is analysed as it stands
             continue
         new = ast.parse(r["src"]).body[0]
         ast.copy_location(new, node)
